@@ -1293,7 +1293,19 @@ ares_status_t ares_send_query(ares_server_t *requested_server,
      * error codes */
     case ARES_ECONNREFUSED:
     case ARES_EBADFAMILY:
-      handle_conn_error(conn, ARES_TRUE, status);
+      {
+        unsigned short qid = query->qid;
+
+        handle_conn_error(conn, ARES_TRUE, status);
+
+        /* Closing the connection fails over the other queries that were using
+         * it, which may run user callbacks.  A callback that cancels the
+         * channel has already completed and freed this query. */
+        if (ares_htable_szvp_get_direct(channel->queries_by_qid, qid) !=
+            query) {
+          return ARES_ECANCELLED;
+        }
+      }
       status = ares_requeue_query(query, now, status, ARES_TRUE, NULL, NULL);
       if (status == ARES_ETIMEOUT) {
         status = ARES_ECONNREFUSED;
